@@ -11,7 +11,8 @@ structure Lat where
   started : Bool := false           -- PingRequests map allocated
   rid : Nat := 0
   iter : Nat := 0                   -- uint32, wraps
-  pings : List (Nat × Bool) := []   -- issued ping id, answered?
+  open_ : List Nat := []            -- ids of the pings issued and not yet answered (End unset)
+  done : List Nat := []             -- ids of the pings answered
   uuid : Nat := 0
   wallet : String := ""
 deriving DecidableEq, Repr, Inhabited
@@ -79,10 +80,6 @@ def Session.setLat (s : Session) (pid : Nat) (l : Lat) : Session :=
   { s with lats := (s.lats.filter (·.1 != pid)) ++ [(pid, l)] }
 
 def wrapDec (n : Nat) : Nat := if n = 0 then 4294967295 else n - 1
-
-def pingsInsert (ps : List (Nat × Bool)) (id : Nat) (v : Bool) : List (Nat × Bool) :=
-  if ps.any (·.1 == id) then ps.map fun q => if q.1 == id then (id, v) else q
-  else ps ++ [(id, v)]
 
 /-! ### core handlers that need a joined participant `p` of session `s` -/
 
@@ -175,25 +172,28 @@ def Session.unsubscribe (s : Session) (p : Part) (rid tid : Nat) : Res :=
 
 /-! ### signed latency (`models/signed_latency.go`) -/
 
+/-- `sendPingRequest`: a new map entry with only the start time (an id that is already a key is reset) -/
 def Lat.sendPing (l : Lat) (conn id : Nat) : Lat × List Delivery :=
-  ({ l with pings := pingsInsert l.pings id false }, [(conn, .pingReq id)])
+  ({ l with open_ := if l.open_.contains id then l.open_ else l.open_ ++ [id], done := l.done.filter (· != id) },
+   [(conn, .pingReq id)])
 
 def Session.latencyStart (s : Session) (p : Part) (rid iter : Nat) (wallet : String) (hint : Nat) : Res :=
-  let l : Lat := { started := true, rid, iter, pings := [], uuid := s.uuid, wallet }
+  let l : Lat := { started := true, rid, iter, open_ := [], done := [], uuid := s.uuid, wallet }
   let (l', ds) := l.sendPing p.conn hint
   (s.setLat p.pid l', ds, .ok)
 
 def Session.onPing (s : Session) (p : Part) (rid hint : Nat) : Res :=
   let l := s.latOf p.pid
-  if !(l.pings.any (·.1 == rid)) then (s, [(p.conn, .error rid ecInternal)], .ok)
+  -- unknown id, or one that was answered before: refused, nothing advances
+  if !(l.open_.contains rid) then (s, [(p.conn, .error rid ecInternal)], .ok)
   else
-    let l := { l with iter := wrapDec l.iter, pings := pingsInsert l.pings rid true }
+    let l := { l with iter := wrapDec l.iter, open_ := l.open_.filter (· != rid), done := l.done ++ [rid] }
     if l.iter > 0 then
       let (l', ds) := l.sendPing p.conn hint
       (s.setLat p.pid l', ds, .ok)
     else
       (s.setLat p.pid l,
-       [(p.conn, .latencyResp l.rid l.pings.length (l.pings.map (·.1)) l.uuid l.wallet)], .ok)
+       [(p.conn, .latencyResp l.rid (l.open_ ++ l.done).length (l.open_ ++ l.done) l.uuid l.wallet)], .ok)
 
 /-! ### the core switch of `handler.handleMessage` for a joined connection
     (join, ping and receipt are handled at server level) -/
